@@ -280,7 +280,12 @@ func runCalls(c Case, e *env) []Event {
 	r := g.rng
 	docid := c.num("doc", 0)
 	rootKind := c.str("root", "document")
-	page := richDoc(docid, g)
+	page := c.str("page", "")
+	if page == "" {
+		page = richDoc(docid, g)
+	}
+	variant := c.str("variant", "")
+	runoff := c.num("runoff", 0)
 	if mode := c.str("mode", ""); mode != "" {
 		page = mutateBytes(page, mode, c.num("param", 0), r)
 	}
@@ -293,7 +298,7 @@ func runCalls(c Case, e *env) []Event {
 	var evs []Event
 	var tmpFile string
 	for k, s := range steps {
-		run := c.ID*1000 + k
+		run := c.ID*1000 + k + runoff
 		key := fmt.Sprintf("%v|%d|%d|%v|%s", s.Nil, s.Log, s.URL, s.Skip, s.Algo)
 		opts, ok := optsCache[key]
 		if !ok {
@@ -310,7 +315,7 @@ func runCalls(c Case, e *env) []Event {
 		hasURL := !s.Nil && s.URL > 0 && opts != nil && opts.OriginalURL != nil
 		call := Event{"ev": "Call", "run": run, "grp": c.ID, "seq": k + 1, "prop": e.prop, "entry": entry, "root": rootKind,
 			"rootdesc": rootDesc, "doc": docid, "nil": s.Nil, "log": s.Log, "url": hasURL, "urlid": s.URL, "skip": !s.Nil && s.Skip,
-			"algo": s.Algo, "bytes": entry != "apply"}
+			"algo": s.Algo, "bytes": entry != "apply", "variant": variant}
 		if s.Nil {
 			call["algo"] = "prevnext"
 			call["log"] = 0
@@ -373,7 +378,7 @@ func runCalls(c Case, e *env) []Event {
 			continue
 		}
 		obs := map[string]interface{}{"err": out.err != nil || out.res == nil, "nodeok": false, "ms": out.dur.Milliseconds(),
-			"core": "", "pag": "", "pagempty": true, "urlfield": "none", "wc": -1,
+			"core": "", "pag": "", "pagempty": true, "urlfield": "none", "wc": -1, "view": "",
 			"treesame": snapshotTree(root) == treeBefore, "optssame": snapshotOpts(opts) == optsBefore}
 		if out.err == nil && out.res != nil {
 			res := out.res
@@ -383,6 +388,7 @@ func runCalls(c Case, e *env) []Event {
 			obs["pag"] = d["pagination"]
 			obs["pagempty"] = res.PaginationInfo.NextPage == "" && res.PaginationInfo.PrevPage == ""
 			obs["wc"] = res.WordCount
+			obs["view"] = dig(res.Text + "\x00" + renderNode(res.Node))
 			switch {
 			case res.URL == "":
 				obs["urlfield"] = "empty"
